@@ -363,6 +363,119 @@ def oracle_tgroup(g, impl, run):
                           % (what, "left" if which == 1 else "right", e, an, fdv, g.x1, g.x2), rep)
 
 
+
+# ---- variables that are sums of 1..5 components: colvar::init's periodic decision and the metric that follows from it ----
+SUM_KW = ["angle", "dihedral", "distance", "distanceZ", "eulerPhi", "polarPhi", "spinAngle"]      # alphabetical = creation order
+SUM_PER360 = ("dihedral", "eulerPhi", "polarPhi", "spinAngle")
+
+
+class SGroup:
+    def __init__(self, r, directed=None):
+        """directed = (position of the odd component in CREATION order: 0 first / 1 middle / 2 last, kind of oddity 0..3): a 3-component
+        sum of period-360 components with exactly that one odd component (every run has all 12 combinations)"""
+        n = r.choice([1, 2, 3, 3, 3, 4, 4, 5]) if directed is None else 3
+        style = r.random() if directed is None else 2.0
+        comps = []
+        for i in range(n):
+            if style < 0.45:      # all periodic with period 360 ... (an odd one is put in below)
+                kw = r.choice(SUM_PER360 + ("distanceZ",)); P = 360.0 if kw == "distanceZ" else 0.0
+            else:
+                kw = r.choice(SUM_KW); P = r.choice([0.0, 360.0, 360.0, 50.0, 10.0]) if kw == "distanceZ" else 0.0
+            co = r.choice([1.0, -1.0]) if r.random() < 0.95 else r.choice([2.0, 0.5, -2.0])
+            ex = 1 if r.random() < 0.96 else 2
+            comps.append([kw, P, co, ex, r.choice([0.0, 90.0, -180.0, 45.5])])
+        if style < 0.45 and n >= 2 and r.random() < 0.6:
+            # ... except one component, anywhere in the list: not periodic, of another period, with another coefficient or exponent
+            j = r.randrange(n)
+            how = r.random()
+            if how < 0.6:
+                comps[j][0] = r.choice(["angle", "distance", "distanceZ", "distanceZ"]); comps[j][1] = r.choice([0.0, 50.0, 10.0]) if comps[j][0] == "distanceZ" else 0.0
+            elif how < 0.8:
+                comps[j][2] = r.choice([2.0, 0.5, -2.0])      # a coefficient that is not +-1
+            else:
+                comps[j][3] = 2                               # an exponent that is not 1
+        if directed is not None:
+            pos, how = directed
+            kws = sorted(r.choice(["dihedral", "eulerPhi", "polarPhi"]) for _ in range(3))       # creation order; distance/distanceZ sort in between
+            if how in (0, 1):
+                odd = ["distance", 0.0] if how == 0 else ["distanceZ", r.choice([50.0, 10.0])]
+                # put the odd keyword at the wanted creation position by choosing neighbours on either side of it alphabetically
+                lo, hi = ["dihedral"], ["eulerPhi", "polarPhi", "spinAngle"]
+                names = ([r.choice(lo), odd[0], r.choice(hi)] if pos == 1 else
+                         ([odd[0], r.choice(hi), r.choice(hi)] if pos == 0 else [r.choice(lo), r.choice(lo), odd[0]]))
+                comps = [[k, (odd[1] if k == odd[0] else 0.0), r.choice([1.0, -1.0]), 1, r.choice([0.0, 90.0, -180.0, 45.5])] for k in names]
+            else:
+                comps = [[k, 0.0, r.choice([1.0, -1.0]), 1, r.choice([0.0, 90.0, -180.0, 45.5])] for k in kws]
+                order0 = sorted(range(3), key=lambda i: SUM_KW.index(comps[i][0]))
+                if how == 2:
+                    comps[order0[pos]][2] = r.choice([2.0, 0.5, -2.0])
+                else:
+                    comps[order0[pos]][3] = 2
+        r.shuffle(comps)
+        self.comps = comps
+        # expected decision, recomputed independently: creation order = stable sort by keyword
+        order = sorted(range(n), key=lambda i: SUM_KW.index(comps[i][0]))
+        def per(c):
+            return 360.0 if c[0] in SUM_PER360 else (c[1] if c[0] == "distanceZ" and c[1] != 0.0 else None)
+        first = comps[order[0]]
+        P = per(first)
+        ok = P is not None and all(per(c) == P and abs(abs(c[2]) - 1.0) <= 1e-10 and c[3] == 1 for c in comps)
+        self.P = P if ok else None
+        self.c = first[4] if ok else 0.0
+        x2 = V.dyadic(r, -3, 3, bits=8) * 360.0
+        m = r.random()
+        if m < 0.5:
+            x1 = x2 + r.choice([-2, -1, 1, 2]) * r.choice([360.0, 360.0, 50.0, 10.0])
+        elif m < 0.6:
+            x1 = x2 + 200.0
+        else:
+            x1 = V.dyadic(r, -3, 3, bits=8) * 360.0
+        self.x1, self.x2 = x1, x2
+        self.lines = [self.ln(x1, x2, x1), self.ln(x2, x1, x2), self.ln(x1, x1, x1)]
+
+    def ln(self, a, b, w):
+        return "SUM %d %s %s %s %s" % (len(self.comps), " ".join("%s %s %s %d %s" % (c[0], hx(c[1]), hx(c[2]), c[3], hx(c[4])) for c in self.comps), hx(a), hx(b), hx(w))
+
+    def desc(self):
+        return " + ".join("%s%s%s%s" % ("" if c[2] == 1.0 else "%g*" % c[2], c[0], "{period %g}" % c[1] if c[1] else "", "^%d" % c[3] if c[3] != 1 else "") for c in self.comps)
+
+
+def oracle_sgroup(g, impl, run):
+    outs = [parse(impl[g.off + i]) for i in range(3)]
+    rep = {"kind": "unit", "lines": g.lines, "impl": impl[g.off:g.off + 3]}
+    if any(o is None or len(o) != 7 for o in outs):
+        run.violation("sum:shape", "no numeric result for %s: %s" % (g.lines[0], impl[g.off]), rep)
+        return
+    flag, P, c, d2, lg, rg, w = outs[0]
+    what = "the variable %s (config order)" % g.desc()
+    if (flag != 0.0) != (g.P is not None) or (g.P is not None and (P != g.P or c != g.c)):
+        run.violation("sum:decision", "%s is flagged %s (period %r, wrapAround %r) but %s" % (
+            what, "periodic" if flag else "not periodic", P, c,
+            "every component is periodic with period %r, coefficient +-1 and exponent 1 (first created component's wrapAround %r)" % (g.P, g.c) if g.P is not None
+            else "its components are not all periodic with one common period, coefficient +-1 and exponent 1"), rep)
+    d = g.x1 - g.x2
+    if g.P is None:
+        if g.x1 != g.x2 and not d2 > 0:
+            run.violation("sum:zero", "%s is not periodic but dist2(%r, %r) = %r" % (what, g.x1, g.x2, d2), rep)
+        elif not close(d2, d * d, 1e-9) or not close(lg, 2 * d, 1e-9):
+            run.violation("sum:metric", "%s is not periodic but dist2(%r, %r) = %r, gradient %r (plain: %r, %r)" % (what, g.x1, g.x2, d2, lg, d * d, 2 * d), rep)
+        if w != g.x1:
+            run.violation("sum:wrap", "%s is not periodic but wrap(%r) = %r" % (what, g.x1, w), rep)
+    else:
+        img = d - math.floor(d / g.P + 0.5) * g.P
+        if not close(d2, img * img, 1e-8) or not close(lg, 2 * img, 1e-8):
+            run.violation("sum:metric", "%s is periodic with period %r but dist2(%r, %r) = %r, gradient %r (closest image %r)" % (what, g.P, g.x1, g.x2, d2, lg, img), rep)
+        k = (g.x1 - w) / g.P
+        if not (g.c - g.P / 2 <= w < g.c + g.P / 2) or abs(k - round(k)) > 1e-9:
+            run.violation("sum:wrap", "%s is periodic (period %r, wrapAround %r) but wrap(%r) = %r" % (what, g.P, g.c, g.x1, w), rep)
+    if not close(d2, outs[1][3], 1e-8):
+        run.violation("sum:sym", "%s: dist2(x1,x2) = %r but dist2(x2,x1) = %r" % (what, d2, outs[1][3]), rep)
+    if not close(rg, outs[1][4], 1e-8):
+        run.violation("sum:rgrad", "%s: dist2_rgrad(x1,x2) = %r but dist2_lgrad(x2,x1) = %r" % (what, rg, outs[1][4]), rep)
+    if not abs(outs[2][3]) <= 1e-12:
+        run.violation("sum:self", "%s: dist2(x,x) = %r" % (what, outs[2][3]), rep)
+
+
 class OMGroup:
     """OPES kernel merge on a periodic variable: base and period images of either kernel centre"""
     def __init__(self, r):
@@ -593,7 +706,8 @@ def check(run):
                        "linearCombination with scalar / 3-vector value, gspathCV/gzpathCV/aspathCV/azpathCV; 6 wrapping centres): dist2/lgrad/rgrad base, swapped, identical, period image, wrapped arguments, sign flip, "
                        "colvar::wrap (30% on the interval edge), +/-h in each argument; OPES kernel-merge groups (base + period image of either centre, 30% across the wrap boundary); "
                        "wrap, interpolate (all types incl. quaternions: 20% opposite, 10% identical end points; 15% antipodal unit vectors), apply_constraints, inner/norm2, moving-restraint centres, "
-                       "distanceVec in triclinic cells (base, swapped, identical, lattice image, +/-h in each argument; never on the cut), pairs of unit vectors from the pool with opposites and one-ulp neighbours, "
+                       "sums of 1..5 components (angle, dihedral, distance, distanceZ with period 0/360/50/10, eulerPhi, polarPhi, spinAngle; coefficients +-1, 5% others; exponent 1, 4% 2; config order shuffled; 45% all of period 360 with, in 60% of those, "
+                       "one odd component anywhere; values whole periods of some component apart): colvar::init decision + dist2/lgrad/rgrad/wrap; distanceVec in triclinic cells (base, swapped, identical, lattice image, +/-h in each argument; never on the cut), pairs of unit vectors from the pool with opposites and one-ulp neighbours, "
                        "and histories on one periodic variable object (modifycvcs changes of period/wrapAround interleaved with colvar::wrap, colvar::dist2 and wrap-then-dist2 calls). "
                        "distinct = distinct base line; non-trivial = arguments differ")
     run.assumptions += ["theorems are about the R instance of the model; the tie runs the float instance and compares with relative tolerance 1e-9 (acos, sqrt) and exactly for dyadic cases",
@@ -611,8 +725,9 @@ def check(run):
     for i, u in enumerate(pool):
         for v in (u, [-t for t in u], [math.nextafter(t, 2.0) for t in u], [math.nextafter(t, -2.0) for t in u], pool[(i * 7 + 3) % len(pool)], pool[(i * 13 + 5) % len(pool)]):
             uvpairs.append(fmt("UV", "", u, v))
+    sgroups = [SGroup(r, (pos, how)) for pos in range(3) for how in range(4)] + [SGroup(r) for _ in range(150 if quick else 5000)]
     lines = []
-    for g in groups + cgroups + omgroups + tgroups:
+    for g in groups + cgroups + omgroups + tgroups + sgroups:
         g.off = len(lines)
         lines += g.lines
     uvoff = len(lines)
@@ -700,6 +815,10 @@ def check(run):
         run.count(g.lines[0], g.x1 != g.x2)
         run.dist("comp:" + g.kind.split(":")[0])
         oracle_cgroup(g, impl, run)
+    for g in sgroups:
+        run.count(g.lines[0], g.x1 != g.x2)
+        run.dist("sum:n=%d:%s" % (len(g.comps), "periodic" if g.P is not None else "plain"))
+        oracle_sgroup(g, impl, run)
     for g in tgroups:
         run.count(g.lines[0], g.x1 != g.x2)
         run.dist("triclinic")
